@@ -244,7 +244,7 @@ def run(ctx):
     by_lang = {}
     kinds = {"chunked": 0, "ranges": 0, "exhaustive_single_char": 0, "multi_step": 0}
     corr_bad = judge_bad = 0
-    lr_doc = {"ok": 0, "stuck": 0, "glr": 0, "skipped": 0, "MISMATCH": 0}
+    lr_doc = {"ok": 0, "stuck": 0, "glr_ok": 0, "glr_stuck": 0, "skipped": 0, "MISMATCH": 0}
     lr_by_lang = {}
     shrunk = 0
     for line in lines:
@@ -258,8 +258,8 @@ def run(ctx):
             tot[k] += int(kv.get(k, "0") or 0)
         lr_doc[kv.get("lr_doc", "skipped")] = lr_doc.get(kv.get("lr_doc", "skipped"), 0) + 1
         ll = lr_by_lang.setdefault(lang, {"doc_ok": 0, "doc_stuck": 0, "doc_glr": 0, "cert_ok": 0, "cert_stuck": 0, "cert_glr": 0})
-        if kv.get("lr_doc") in ("ok", "stuck", "glr"):
-            ll["doc_" + kv["lr_doc"]] += 1
+        if kv.get("lr_doc") in ("ok", "stuck", "glr_ok", "glr_stuck"):
+            ll["doc_" + kv["lr_doc"].replace("glr_ok", "glr").replace("glr_stuck", "stuck")] += 1
         for k in ("cert_ok", "cert_stuck", "cert_glr"):
             ll[k] += int(kv.get(k, "0") or 0)
         bl = by_lang.setdefault(lang, {"cases": 0, "clean": 0, "reused_inner": 0})
@@ -330,12 +330,12 @@ def run(ctx):
                            "lr_machine_on_real_tables": {
                                "whole_error_free_documents": lr_doc,
                                "reuse_certificates": {"certified": tot["cert_ok"], "machine_stuck": tot["cert_stuck"],
-                                                      "ambiguous_glr": tot["cert_glr"], "skipped_error_recovered_or_no_parse_state": tot["cert_skipped"]},
+                                                      "certified_by_some_glr_version": tot["cert_glr"], "skipped_error_recovered_or_no_parse_state": tot["cert_skipped"]},
                                "by_language": lr_by_lang,
                                "what": "TsVerif.C01.LR.step on the dumped parse table: (a) fed with the leaves of every error-free real scratch "
                                        "tree it must accept with that tree; (b) for every subtree the real incremental parse reused it must "
                                        "rebuild that subtree from its parse state (certificate LR.ReuseOK of incr_eq_scratch); a MISMATCH is a "
-                                       "model/implementation disagreement, stuck = outside the machine (non-terminal extras, keyword switch), glr = ambiguous entry"},
+                                       "model/implementation disagreement, stuck = outside the machine (non-terminal extras); at GLR entries a bounded version list is used and SOME version must produce the real tree (glr_ok / certified_by_some_glr_version)"},
                            "cases": evals, "cases_equal": evals - corr_bad,
                            "what": "gate events of the real parser's log vs reuseGate on the dumped old tree and dumped tables"},
         "judge": {"evaluated": evals, "passed": evals - judge_bad, "error_free_scratch_trees": tot["clean"]},
